@@ -35,7 +35,7 @@ def cases(tier):
     for c in universe.graph_cases([(2, eg.TCORE, 'first', 'one')],
                                   {'rp': 'p3', 'nd': 1}, sigrev=True):
       if any(sg.get(k) for sg in c['ir']['subgraphs']
-             for k in ('sigorder', 'ioorder', 'dupout')):
+             for k in ('sigorder', 'ioorder', 'dupout', 'xout')):
         yield c
 
 
